@@ -120,10 +120,11 @@ theorem closeChan_ok (c : Chan) (h : ChanOk c) : ChanOk (closeChan c) ∧ (close
   unfold closeChan
   rcases h with ⟨h1, h2, h3⟩ | ⟨h1, h2, h3⟩ <;> simp [h1, h2, h3, ChanOk]
 
-/-- **channel_close_exactly_once** (safety half): along every schedule that does not use the raw
-`SctpTransport::close_data_channel` (it is not reachable through `PeerConnection`; see the witnesses below for
-what it does), every channel has seen `Close` at most once, exactly once iff it is closed — and then a
-pending `recv()` returns —, a closed channel is never reopened, the number of channels never changes. -/
+/-- **channel_close_exactly_once** (safety half, with the `recv()` clause): along every schedule that does
+not use the raw `SctpTransport::close_data_channel` (not reachable through `PeerConnection`; it still leaves
+the event sender alive — witness below; the at-most-once clause alone needs no such hypothesis:
+`channel_close_at_most_once`), every channel has seen `Close` at most once, exactly once iff it is closed —
+and then a pending `recv()` returns —, a closed channel is never reopened, the number of channels never changes. -/
 theorem channel_close_exactly_once (s : St) (as : List Act) (h : ∀ c ∈ s.chans, ChanOk c)
     (hne : ∀ a ∈ as, ∀ i, a ≠ .closeChannel i) :
     (run s as).chans.length = s.chans.length ∧
@@ -181,10 +182,65 @@ theorem channel_close_on_close (s : St) (as : List Act) (h : ∀ c ∈ s.chans, 
   · simp [h1] at this
   · exact ⟨h1, h2, h3⟩
 
-/-- **Witness (known finding `chan:…closeChannelTwice…`)**: the third Close emitter,
-`SctpInner::close_data_channel`, is unguarded: calling it twice delivers `Close` twice. -/
-theorem close_data_channel_twice_witness :
-    (run (connectedSt .webrtc true 1) [.closeChannel 0, .closeChannel 0]).chans = [⟨true, 2, false⟩] := by decide
+/-- weaker invariant that also survives the raw `close_data_channel`: open with no Close delivered, or
+closed with exactly one (the sender may still be alive) -/
+def ChanOnce (c : Chan) : Prop :=
+  (c.closed = false ∧ c.events = 0 ∧ c.senderDropped = false) ∨ (c.closed = true ∧ c.events = 1)
+
+theorem closeChan_once (c : Chan) (h : ChanOnce c) : ChanOnce (closeChan c) := by
+  unfold closeChan
+  rcases h with ⟨h1, h2, h3⟩ | ⟨h1, h2⟩ <;> simp [h1, h2, ChanOnce]
+
+theorem rawCloseChan_once (c : Chan) (h : ChanOnce c) : ChanOnce (rawCloseChan c) := by
+  unfold rawCloseChan
+  rcases h with ⟨h1, h2, h3⟩ | ⟨h1, h2⟩ <;> simp [h1, h2, ChanOnce]
+
+theorem rawCloseAt_once (l : List Chan) (i : Nat) (h : ∀ c ∈ l, ChanOnce c) : ∀ c ∈ rawCloseAt l i, ChanOnce c := by
+  induction l generalizing i with
+  | nil => simp [rawCloseAt]
+  | cons x xs ih =>
+    cases i with
+    | zero =>
+      intro c hc
+      simp only [rawCloseAt, List.mem_cons] at hc
+      rcases hc with rfl | hc
+      · exact rawCloseChan_once x (h x (by simp))
+      · exact h c (by simp [hc])
+    | succ n =>
+      intro c hc
+      simp only [rawCloseAt, List.mem_cons] at hc
+      rcases hc with rfl | hc
+      · exact h _ (by simp)
+      · exact ih n (fun d hd => h d (by simp [hd])) c hc
+
+/-- **channel_close_at_most_once** — no hypothesis on the schedule any more (the raw
+`SctpTransport::close_data_channel` included, since the SCTP fix made it announce Close at most once): along
+**every** schedule of all actors every channel has seen `Close` at most once, exactly once iff it is closed. -/
+theorem channel_close_at_most_once (s : St) (as : List Act) (h : ∀ c ∈ s.chans, ChanOnce c) :
+    ∀ c ∈ (run s as).chans, ChanOnce c := by
+  induction as generalizing s with
+  | nil => exact h
+  | cons a rest ih =>
+    simp only [run, List.foldl_cons]
+    apply ih
+    by_cases hraw : ∃ i, a = .closeChannel i
+    · obtain ⟨i, rfl⟩ := hraw
+      unfold step
+      split
+      · exact rawCloseAt_once s.chans i h
+      · exact h
+    · have hs := chans_step s a (fun i hi => hraw ⟨i, hi⟩)
+      rcases hs with e | e
+      · rw [e]; exact h
+      · rw [e]; intro c hc
+        simp only [List.mem_map] at hc
+        obtain ⟨c0, hc0, rfl⟩ := hc
+        exact closeChan_once c0 (h c0 hc0)
+
+/-- was the known finding `chan:…closeChannelTwice:close-delivered-2-times` (the third Close emitter was
+unguarded); fixed in the SCTP layer: the second call is a no-op -/
+theorem close_data_channel_twice_now_once :
+    (run (connectedSt .webrtc true 1) [.closeChannel 0, .closeChannel 0]).chans = [⟨true, 1, false⟩] := by decide
 
 /-- **Witness (known finding `hang:…closeChannel+close…`)**: after `close_data_channel` the channel is
 `Closed` with its sender still alive, so the teardown paths skip it: even after a complete `close()` a
